@@ -62,6 +62,12 @@ def check(ctx):
                         if isinstance(e_.elts[0], _a6.Constant) and e_.elts[0].value == 'batch_size':
                             found['dump_to_sql batch_size default'] = e_.elts[1]
                             seen6.add(('sql', _u6(e_.elts[1])))
+    if 'dump_to_sql batch_size default' not in found:
+        from rules import tables as _t6
+        for fn_ in _views('dataflows.processors.dumpers.to_sql'):
+            for d_ in _t6.option_defaults(fn_, 'batch_size'):
+                found['dump_to_sql batch_size default'] = d_
+                seen6.add(('sql', _u6(d_)))
     if len(seen6) > 2:
         raise _AE6('look-ahead constants: more than one default for one option (%s)' % sorted(seen6))
     if len(found) != 3:
